@@ -164,7 +164,8 @@ package jsonrpc2
 // ---- codec and handler interfaces as seen by Remote ----------------------------------------
 //@ interface jsonrpc2.Codec.ReadMessage() (result, err)
 //@ ensures [message] err == nil ==> result != nil
-//@ modifies nothing
+//@ ensures [each-message-is-its-own] err == nil ==> !old(allocated(ref(result)))
+//@ modifies alloc
 
 //@ interface jsonrpc2.Codec.WriteMessage(msg) (err)
 //@ modifies nothing
@@ -233,6 +234,7 @@ package jsonrpc2
 //@ requires codec != nil && codecInv(codec)
 //@ ensures [inv]       codecInv(codec)
 //@ ensures [non-nil]   result != nil
+//@ ensures [each-message-is-its-own] {C17} err == nil ==> result != nil && !old(allocated(ref(result)))
 //@ ensures [in-order]  err == nil ==> result.msgstart == old(nextOffset(codec))
 //@ ensures [exactly-once] err == nil ==> nextOffset(codec) == old(nextOffset(codec)) + result.msglen
 //@ ensures [no-skipping] err != nil ==> nextOffset(codec) == old(nextOffset(codec)) || old(codec.decoder) == nil
